@@ -582,6 +582,10 @@ def multiset(xs):
     return d
 
 
+def show(lr):
+    return [(l, tuple(str(v) for v in r)) for l, r in lr]
+
+
 def df_lrows(d):
     return [(l, tuple(fr(v) for v in r)) for l, r in zip(d['index'], d['cells'])]
 
@@ -613,7 +617,7 @@ def panel_facts(before, after, c, what):
             bad.append((f'{what}/not-contiguous', f'individual {v} is not contiguous'))
     if after.imap != want:
         bad.append(('panel/stale-map' if what == 'remove' else f'{what}/wrong-map',
-                    f'individualMap {after.imap} does not describe the rows (expected {want})'))
+                    f'individualMap {[(str(v), a, b) for v, a, b in after.imap]} does not describe the rows (expected {[(str(v), a, b) for v, a, b in want]})'))
     return bad
 
 
@@ -636,7 +640,7 @@ def oracle_step(pre, o, res, post):
             ok = ok and lo == nxt and hi >= lo
             nxt = hi + 1
         if not (ok and nxt == len(post.rows)):
-            bad.append(('panel/stale-map', f'after {k}: the ranges {post.imap} do not tile the {len(post.rows)} rows'))
+            bad.append(('panel/stale-map', f'after {k}: the ranges {[(str(v), a, b) for v, a, b in (post.imap or [])]} do not tile the {len(post.rows)} rows'))
     if raised:
         # was the refusal legitimate?
         want, must_raise = (sim(pre, o) if k in MUTATORS else (pre, None))
@@ -656,7 +660,7 @@ def oracle_step(pre, o, res, post):
             if post.lrows() != want:
                 has_dups = len(set(pre.index)) < len(pre.index)
                 bad.append(('remove/duplicate-labels' if has_dups else 'remove/rows',
-                            f'surviving rows {post.lrows()} != rows with a zero condition {want}'))
+                            f'surviving rows {show(post.lrows())} != rows with a zero condition {show(want)}'))
             if (post.pcol, post.imap) != (None, None):
                 bad.append(('remove/panel-state', 'panel state appeared'))
         else:
@@ -689,14 +693,14 @@ def oracle_step(pre, o, res, post):
     elif k == 'extract_into':
         want = [(pre.index[i], tuple(pre.rows[i])) for i in o['idx']]
         if post.cols != pre.cols or post.lrows() != want:
-            bad.append(('extract/rows', f'extracted {post.lrows()} expected {want}'))
+            bad.append(('extract/rows', f'extracted {show(post.lrows())} expected {show(want)}'))
         if (post.excluded, post.pcol, post.imap) != (0, None, None):
             bad.append(('extract/bookkeeping', 'new database is not fresh'))
     elif k == 'extract':
         out = St.of_dump(res['out'])
         want = [(pre.index[i], tuple(pre.rows[i])) for i in o['idx']]
         if out.cols != pre.cols or out.lrows() != want:
-            bad.append(('extract/rows', f'extracted {out.lrows()} expected {want}'))
+            bad.append(('extract/rows', f'extracted {show(out.lrows())} expected {show(want)}'))
     elif k == 'split':
         folds = [(df_lrows(f['est']), df_lrows(f['val'])) for f in res['folds']]
         allrows = multiset(pre.lrows())
